@@ -36,6 +36,36 @@ Definition ctor_ecls (c : ctor) (e : err) : ecls :=
 Definition aabs (a : aff) : aff := Aff (Qcabs (nom a)) (Qcabs <$> der a).
 Definition babs_affine (c : Qc * Qc) (B : aff) : aff :=
   Aff (Qcabs c.1 * nom B + Qcabs c.2) (Qcmult (Qcabs c.1) <$> der B).
+(** an offset conversion goes through the reference unit: ((x·s1 + o1)·f − o2)/s2.  The float
+    computation carries the magnitude of the offsets even when they cancel in the net map
+    (degree_Reaumur → degree_Celsius has b = 0 but passes through 273.15): the slack to add to
+    a magnitude bound *)
+Definition conv_slack (r : reg) (src dst : uc) : Qc :=
+  if uc_eqb src dst then 0%Qc else
+  match validate_extract r src, validate_extract r dst with
+  | Ok so, Ok do_ =>
+      let p1 := match so with
+                | Some n => match offset_parts r n with Ok p => p | Err _ => (1%Qc, 0%Qc, src) end
+                | None => (1%Qc, 0%Qc, src) end in
+      let p2 := match do_ with
+                | Some n => match offset_parts r n with Ok p => p | Err _ => (1%Qc, 0%Qc, dst) end
+                | None => (1%Qc, 0%Qc, dst) end in
+      match exact_factor (conv_factor r p1.2 p2.2) with
+      | Ok f => if qz p2.1.1 then 0%Qc
+                else ((Qcabs p1.1.2 * Qcabs f + Qcabs p2.1.2) / Qcabs p2.1.1)%Qc
+      | Err _ => 0%Qc
+      end
+  | _, _ => 0%Qc
+  end.
+Definition babs_conv (r : reg) (src dst : uc) (c : Qc * Qc) (B : aff) : aff :=
+  let A := babs_affine c B in Aff (nom A + conv_slack r src dst) (der A).
+Definition ctor_slack (r : reg) (c : ctor) : Qc :=
+  match c with
+  | CQty _ vu (EQty _ eu) | CNums _ (EQty _ eu) vu | CPlusMinus _ vu (EQty _ eu) _ => conv_slack r eu vu
+  | CBare _ (EQty _ eu) => conv_slack r eu ∅
+  | _ => 0%Qc
+  end.
+
 (** which operand [_add_sub] converts, as affine maps applied to the two magnitudes *)
 Definition addsub_plan (r : reg) (u1 u2 : uc) : res ((Qc * Qc) * (Qc * Qc)) :=
   if uc_eqb u1 u2 then Ok ((1, 0), (1, 0))%Qc
@@ -48,7 +78,7 @@ Fixpoint mbound (blind : bool) (r : reg) (V : vars) (e : mexpr) : res (meas * af
       '(x, X) ←r mbound blind r V a; '(y, Y) ←r mbound blind r V b;
       z ←r meas_addsub blind (match e with XSub _ _ => true | _ => false end) r x y;
       '(c1, c2) ←r addsub_plan r (m_units x) (m_units y);
-      Ok (z, aff_add (babs_affine c1 X) (babs_affine c2 Y))
+      Ok (z, aff_add (babs_conv r (m_units x) (m_units z) c1 X) (babs_conv r (m_units y) (m_units z) c2 Y))
   | XMul a b =>
       '(x, X) ←r mbound blind r V a; '(y, Y) ←r mbound blind r V b;
       z ←r meas_muldiv blind false r x y; Ok (z, aff_mul X Y)
@@ -63,7 +93,7 @@ Fixpoint mbound (blind : bool) (r : reg) (V : vars) (e : mexpr) : res (meas * af
   | XScale c a => '(x, X) ←r mbound blind r V a;
       Ok (Meas (aff_affine c 0 (m_mag x)) (m_units x), babs_affine (c, 0%Qc) X)
   | XTo a u => '(x, X) ←r mbound blind r V a;
-      c ←r conv_affine r (m_units x) u; z ←r meas_to r x u; Ok (z, babs_affine c X)
+      c ←r conv_affine r (m_units x) u; z ←r meas_to r x u; Ok (z, babs_conv r (m_units x) u c X)
   end.
 
 (** ** observed results *)
@@ -160,7 +190,7 @@ Section WithReg.
     | KCtor c e =>
         match ctor_norm r c, e with
         | Ok (v, s, u), CTOk v' s' u' =>
-            close rtol v' v (Qcabs v) && close rtol s' s (Qcabs s) && uc_eqb u u'
+            close rtol v' v (Qcabs v) && close rtol s' s (Qcabs s + ctor_slack r c) && uc_eqb u u'
         | Err x, CTErr y => bool_decide (ctor_ecls c x = y)
         | _, _ => false
         end
@@ -169,7 +199,7 @@ Section WithReg.
         let E := env_new ∅ i (v, s, u) in
         match conv_affine r u dst, meas_to r (meas_new i (v, s, u)) dst with
         | Ok c, Ok m =>
-            let B := babs_affine c (Aff (Qcabs v) {[ i := 1%Qc ]}) in
+            let B := babs_conv r u dst c (Aff (Qcabs v) {[ i := 1%Qc ]}) in
             close rtol value (m_value m).1 (nom B) &&
             match m_error E m with
             | Some (x, u') => close rtol error x x && uc_eqb u' dst
